@@ -62,6 +62,7 @@ def build(case):
     targets = []  # [name, cols]   (cols == [] : the table was created by SELECT * over an unknown table: only its star can be read)
     out = []
     needs_provider = False
+    seen_inner = set()
     unq_names = set()  # a name is used unqualified at most once per script (same-named unresolved columns of different statements merge: K-unres-merge)
     for i, (kind, reads, cols_spec, wrap, variant) in enumerate(stmts_spec):
         named_targets = [t for t in targets if t[1]]
@@ -146,7 +147,11 @@ def build(case):
                 # every statement uses the SAME derived-table alias and the same inner column names v1, v2, ...: the columns d.v1 of different
                 # statements are different columns (other subquery), whatever they are called
                 inner = ir.Select(tuple(ir.Item(it.e, f"v{j + 1}", True) for j, it in enumerate(q.items)), q.frm)
-                q = ir.Select(tuple(ir.Item(ir.Col("d", f"v{j + 1}"), c, True) for j, c in enumerate(tcols)), (ir.FromGroup(ir.Derived(inner, "d", True)),))
+                alias = "d"
+                if ir.r_query(inner) in seen_inner:
+                    alias = f"d{i + 1}"  # two statements with the SAME derived text and alias are one subquery node (K-eqtext-subq): keep them apart
+                seen_inner.add(ir.r_query(inner))
+                q = ir.Select(tuple(ir.Item(ir.Col(alias, f"v{j + 1}"), c, True) for j, c in enumerate(tcols)), (ir.FromGroup(ir.Derived(inner, alias, True)),))
         tgt = Tn(tname)
         if (kind == 0 or mode == "rewrite") and mode != "redefine":
             st_ = ir.Insert(tgt, tuple(tcols) if not star_variant else None, q, "INSERT INTO", False)
@@ -249,7 +254,7 @@ def classify(case, detail):
     if not redefined or not extra:
         return None
     for p in extra:
-        if len(p) < 2 or p[-2].rsplit(".", 1)[0] not in redefined or p[:-1] not in missing:
+        if len(p) < 2 or p[-2].rsplit(".", 1)[0].replace("<default>.", "") not in redefined or p[:-1] not in missing:
             return None
     if any(m not in [p[:-1] for p in extra] for m in missing):
         return None
